@@ -751,21 +751,42 @@ def _stencil_path(prog: Program, res: Result, env0, fi, q, eng, f):
             res.violation("R10.10", f"samples|{nm_}|{len(sites)}", prog.loc(fi, extra) if extra is not None else prog.loc(fi, loop), q,
                           f"{nm_} is extended at {len(sites)} places: a sample that is not the solution of its own time step enters the published curve"
                           + (f" ('{norm_stmt(extra)[:70]}')" if extra is not None else ""))
+    def _closure(expr):
+        """names the condition depends on, through flags / temporaries assigned in the function (finished = time >= last_start;
+        last_start = final_time - time_step), and whether a disjunction / conjunction is met on the way"""
+        names, mixed = set(), False
+        work, seen_ = [expr], set()
+        for _ in range(4):
+            nxt = []
+            for e_ in work:
+                mixed = mixed or any(isinstance(x, ast.BoolOp) for x in ast.walk(e_))
+                for x in ast.walk(e_):
+                    if isinstance(x, ast.Name) and x.id not in seen_:
+                        seen_.add(x.id)
+                        names.add(x.id)
+                        if x.id in (TIME, "final_time"):
+                            continue
+                        for a_ in ast.walk(fi.node):
+                            if isinstance(a_, ast.Assign) and len(a_.targets) == 1 and isinstance(a_.targets[0], ast.Name) and a_.targets[0].id == x.id and not isinstance(a_.value, ast.Constant):
+                                nxt.append(a_.value)
+            work = nxt
+        return names, mixed
+
     for br in [x for x in ast.walk(loop) if isinstance(x, (ast.Break, ast.Return))]:
         guard = None
         for n_ in ast.walk(loop):
             if isinstance(n_, ast.If) and any(br is x for b_ in n_.body + n_.orelse for x in ast.walk(b_)):
                 guard = n_
-        names_ = {x.id for x in ast.walk(guard.test) if isinstance(x, ast.Name)} if guard is not None else set()
-        ok = guard is not None and TIME in names_ and "final_time" in names_ and not any(isinstance(x, ast.BoolOp) and isinstance(x.op, ast.Or) for x in ast.walk(guard.test))
+        names_, mixed_ = _closure(guard.test) if guard is not None else (set(), False)
+        ok = guard is not None and TIME in names_ and "final_time" in names_ and not mixed_
         res.ob("R10.10", f"the time march is left only when the time variable reaches final_time ({ast.unparse(guard.test)[:60] if guard is not None else 'unconditional'})", ok, prog.loc(fi, br))
         if not ok:
             res.violation("R10.10", f"early-exit|{ast.unparse(guard.test)[:60] if guard is not None else 'unconditional'}", prog.loc(fi, br), q,
                           f"the time march is left under '{ast.unparse(guard.test)[:100] if guard is not None else 'no condition'}', which is not the end of the requested period: "
                           "the curve that is published claims times the temperature field never reached")
     if isinstance(loop, ast.While) and not (isinstance(loop.test, ast.Constant) and loop.test.value is True):
-        names_ = {x.id for x in ast.walk(loop.test) if isinstance(x, ast.Name)}
-        ok = TIME in names_ and "final_time" in names_ and not any(isinstance(x, ast.BoolOp) for x in ast.walk(loop.test))
+        names_, mixed_ = _closure(loop.test)
+        ok = TIME in names_ and "final_time" in names_ and not mixed_
         res.ob("R10.10", f"the loop condition is a comparison of the time variable with final_time ({ast.unparse(loop.test)[:60]})", ok, prog.loc(fi, loop))
         if not ok:
             res.violation("R10.10", f"loop-test|{ast.unparse(loop.test)[:60]}", prog.loc(fi, loop), q, f"the time march runs while '{ast.unparse(loop.test)[:100]}', not until the requested final time")
